@@ -247,8 +247,122 @@ func latticeCases() []lcase {
 	add("new built-in function", "new Math()", "TypeError", "11.2.2 step 3")
 	add("call non-callable object", "Math()", "TypeError", "11.2.3 step 5")
 	add("call non-callable object", "JSON()", "TypeError", "11.2.3 step 5")
+	// non-generic toString methods (C14 hand-over)
+	for _, t := range []string{"({})", "1", `"s"`, "undefined", "null", "[]", "fn"} {
+		if t != "undefined" {
+			add("RegExp.prototype.toString receiver", "RegExp.prototype.toString.call("+t+")", "TypeError", "15.10.6: this must be a RegExp object")
+		}
+		w := ""
+		if t == "1" || t == `"s"` || t == "null" {
+			w = "TypeError"
+		}
+		if t != "undefined" {
+			add("Error.prototype.toString receiver", "Error.prototype.toString.call("+t+")", w, "15.11.4.4 step 2: Type(O) is not Object")
+		}
+	}
+	// 15.3.2.1 Function(p1, ..., pn, body): P = the parameter arguments joined with ","; P must be a
+	// FormalParameterList_opt and body a FunctionBody, each on its own; SyntaxError otherwise
+	pieces := []string{"", "a", "a,b", "a, b", " a ", "a b", "a,", ",a", "a,,b", "a=1", "a)", "a/*", "*/", "1", "this", "a\n", "a,a", "/*", "b*/", "a){", "...a"}
+	bodies := []struct {
+		src   string
+		valid bool
+	}{{"return 1", true}, {"", true}, {"var = 1", false}, {"*/){", false}, {"}); (function(){", false}, {"}, function(){", false}}
+	var plists [][]string
+	for _, p := range pieces {
+		plists = append(plists, []string{p})
+	}
+	for _, p := range pieces {
+		for _, q := range pieces {
+			plists = append(plists, []string{p, q})
+		}
+	}
+	few := []string{"a", "b c", "", "/*", "*/", "c"}
+	for _, p := range few {
+		for _, q := range few {
+			for _, t := range few {
+				plists = append(plists, []string{p, q, t})
+			}
+		}
+	}
+	plists = append(plists, nil)
+	for _, pl := range plists {
+		for _, b := range bodies {
+			args := make([]string, 0, len(pl)+1)
+			for _, p := range pl {
+				args = append(args, ox.JSLit(strings.ReplaceAll(p, "\\n", "\n")))
+			}
+			args = append(args, ox.JSLit(b.src))
+			real := make([]string, len(pl))
+			for i, p := range pl {
+				real[i] = strings.ReplaceAll(p, "\\n", "\n")
+			}
+			w := ""
+			if !validFormalParameters(strings.Join(real, ",")) || !b.valid {
+				w = "SyntaxError"
+			}
+			for _, form := range []string{"new Function(", "Function("} {
+				add("Function constructor parameters", form+strings.Join(args, ", ")+")", w, "15.3.2.1 steps 5-9")
+			}
+		}
+	}
 	_ = small
 	return l
+}
+
+var reservedWords = map[string]bool{"break": true, "case": true, "catch": true, "continue": true, "debugger": true, "default": true, "delete": true,
+	"do": true, "else": true, "finally": true, "for": true, "function": true, "if": true, "in": true, "instanceof": true, "new": true, "return": true,
+	"switch": true, "this": true, "throw": true, "try": true, "typeof": true, "var": true, "void": true, "while": true, "with": true,
+	"class": true, "const": true, "enum": true, "export": true, "extends": true, "import": true, "super": true, "null": true, "true": true, "false": true}
+
+// validFormalParameters decides whether p is a FormalParameterList_opt (ES5 13):
+// identifiers separated by commas; white space, line terminators and comments
+// may separate the tokens (7.2-7.4); anything else is a SyntaxError.
+func validFormalParameters(p string) bool {
+	var toks []string
+	for i := 0; i < len(p); {
+		c := p[i]
+		switch {
+		case c == ' ' || c == '\t' || c == '\n' || c == '\r' || c == '\v' || c == '\f':
+			i++
+		case strings.HasPrefix(p[i:], "/*"):
+			j := strings.Index(p[i+2:], "*/")
+			if j < 0 {
+				return false
+			}
+			i += 2 + j + 2
+		case strings.HasPrefix(p[i:], "//"):
+			j := strings.IndexAny(p[i:], "\n\r")
+			if j < 0 {
+				i = len(p)
+			} else {
+				i += j
+			}
+		case c == ',':
+			toks = append(toks, ",")
+			i++
+		case c == '_' || c == '$' || (c >= 'a' && c <= 'z') || (c >= 'A' && c <= 'Z'):
+			j := i
+			for j < len(p) && (p[j] == '_' || p[j] == '$' || (p[j] >= 'a' && p[j] <= 'z') || (p[j] >= 'A' && p[j] <= 'Z') || (p[j] >= '0' && p[j] <= '9')) {
+				j++
+			}
+			if reservedWords[p[i:j]] {
+				return false
+			}
+			toks = append(toks, "id")
+			i = j
+		default:
+			return false
+		}
+	}
+	if len(toks) == 0 {
+		return true
+	}
+	for i, t := range toks {
+		if (i%2 == 0) != (t == "id") {
+			return false
+		}
+	}
+	return len(toks)%2 == 1
 }
 
 const latticeProbe = `
